@@ -11,6 +11,26 @@ import gen_dependent as GD
 CORPUS = {bytes: [b"ab", b"x"], int: [0, 1, 2, 3, 4, 5, 6, 7, -1, 101, True], str: ["a", "b", "ab", "ca", "xb", "", "abc"], bool: [True, False], tuple: [(1, "a"), (1, 1), (1,), (2, "b"), ("a", 1), (1.0, "a"), (True, "a"), (1, "a", 2)]}
 
 
+def _strictly_below(ra, rb):
+    from ovld.mro import Order, typeorder
+
+    os_ = [typeorder(x, y) for x, y in zip(ra, rb)]
+    return all(o in (Order.LESS, Order.SAME) for o in os_) and any(o is Order.LESS for o in os_)
+
+
+def _overlapping_literals(norm, hs):
+    """the open finding F-overlap: two of the matching methods carry DIFFERENT Literal sets with a common value at one position"""
+    for a in hs:
+        for b in hs:
+            if a < b:
+                for ta, tb in zip(norm[a], norm[b]):
+                    if type(ta).__name__ == "Equals" and type(tb).__name__ == "Equals":
+                        pa, pb = set(map(repr, ta.parameters)), set(map(repr, tb.parameters))
+                        if pa != pb and pa & pb:
+                            return True
+    return False
+
+
 def main():
     mode = sys.argv[1] if len(sys.argv) > 1 else "c10"
     failing, n = {}, 0
@@ -21,7 +41,10 @@ def main():
         if len(f["violations"]) < 2:
             f["violations"].append(d)
 
-    for fi, (anns_list, probes) in enumerate(GD.families("quick")):
+    for fi, spec in enumerate(GD.families("quick")):
+        anns_list, probes = spec[0], spec[1]
+        if len(spec) > 2:
+            continue  # families of methods with self: per-instance verification of the emitted text, and native/c17_classes.py
         ov = Ovld(name=f"fam{fi}")
         fns = []
         pos0, kw0 = GD._split(anns_list[0])
@@ -81,10 +104,13 @@ def main():
                     st = [h for h in matches if static_only[h]]
                     want = f"h{st[0]}" if len(st) == 1 else "base" if not st else "AMBIGUOUS"
                 else:
-                    want = "AMBIGUOUS"
+                    # "two OTHERWISE UNORDERED dependent methods": a matching method that the type order (C12's subject) puts
+                    # strictly below every other matching one is the expected winner
+                    top = [a for a in dep_matches if all(_strictly_below(norm[a], norm[b]) for b in dep_matches if b != a)]
+                    want = f"h{top[0]}" if len(top) == 1 else "AMBIGUOUS"
                 if got != want:
                     mixed_first = any(len({type(p) for p in getattr(t, "parameters", ())}) > 1 for row in norm for t in row if type(t).__name__ == "Equals")
-                    kind = "unionbound" if (got.startswith("TypeError:") or got.startswith("AttributeError")) and " | " in label else "overlap" if want == "AMBIGUOUS" and got.startswith("h") else "bound_first_value" if mixed_first else "product" if "tuple" in label and want != "AMBIGUOUS" and got == "AMBIGUOUS" else "mismatch"
+                    kind = "unionbound" if (got.startswith("TypeError:") or got.startswith("AttributeError")) and " | " in label else "overlap" if want == "AMBIGUOUS" and got.startswith("h") and _overlapping_literals(norm, dep_matches) else "bound_first_value" if mixed_first else "product" if "tuple" in label and want != "AMBIGUOUS" and got == "AMBIGUOUS" else "mismatch"
                     fail(f"{kind}[{label[:60]}]" if kind == "mismatch" else kind, family=label, values=[repr(v) for v in vals], got=got, expected=want, matching=[f"h{h}" for h in matches])
     # value types on keyword-only parameters (alone, and next to a conditioned positional)
     from typing import Literal
